@@ -1,15 +1,30 @@
-"""Registry of sidecar contracts (filled by the contract modules on import)."""
+"""Registries of sidecar contracts.
+
+`registry()` - bit-level contracts (ints are bit-vectors; spec functions are defined in specs.py).
+`registry_abs()` - loop-level contracts over the abstraction: the id-level spec functions (RES, NCHILD, CHILD,
+  PAR, KEY, ...) are uninterpreted, the callees are used through their contracts, and the facts about the spec
+  functions that the loop-level proofs use are exactly the lemmas discharged at bit level.
+"""
 from ..pyvc.contracts import Registry
 
 _REG = None
+_REG_ABS = None
 
 
 def registry():
     global _REG
     if _REG is None:
         _REG = Registry()
-        from . import serialization_contracts, compact_contracts, hilbert_contracts   # noqa: F401
+        from . import serialization_contracts, hilbert_contracts   # noqa: F401
         serialization_contracts.register(_REG)
-        compact_contracts.register(_REG)
         hilbert_contracts.register(_REG)
     return _REG
+
+
+def registry_abs():
+    global _REG_ABS
+    if _REG_ABS is None:
+        _REG_ABS = Registry()
+        from . import compact_contracts
+        compact_contracts.register(_REG_ABS)
+    return _REG_ABS
